@@ -96,6 +96,29 @@ def compare_scripts(run, text, ref, env, psc, g, cards, case, tags):
             run.fail({"subcheck": "parse:stack-command-argument"}, case,
                      "assertion-stack commands: standard reading %r, pySMT %r\n text=%s" % (rstack, pstack, text[:600]))
             return 0
+        # --- attributes of annotated terms, as the script reports them.  (Not matched term by term: the parser may build
+        #     an annotated term in another shape than the blueprint.)  Over all annotated terms: an attribute that is only
+        #     ever written without a value has no value; the values of :named / :weight are exactly the written ones.
+        written = {}
+        for (_abp, attrs) in getattr(g, "expected_annotations", ()):
+            for (attr, val) in attrs:
+                written.setdefault(attr, set()).add(val)
+        if written and psc.annotations is not None:
+            run.cls("annotations-compared")
+            reported = {}
+            for term_ in list(getattr(psc.annotations, "_annotations", {})):
+                for attr, vals in (psc.annotations.annotations(term_) or {}).items():
+                    reported.setdefault(attr, set()).update(str(v) for v in vals)
+            for attr, vals_w in written.items():
+                if Ellipsis in vals_w:
+                    continue
+                want = {v for v in vals_w if v is not None}
+                got = reported.get(attr)
+                if got is None or got != want:
+                    run.fail({"subcheck": "parse:annotation", "attribute": "valueless" if not want else "valued"}, case,
+                             "attribute :%s: the script reports the values %r, written: %r\n text=%s" % (
+                                 attr, None if got is None else sorted(got), sorted(want), text[:600]))
+                    break
         live = None
         if rstack:
             try:
@@ -394,6 +417,7 @@ def gen_script(rnd, k):
         lines.insert(rnd.randrange(len(lines) + 1), "; a comment ( with | parens")
         tags.add("comment")
     sep = "\n" if g.pct(80) else "  \t\n "
+    g.expected_annotations = list(w.annotations) if kind in ("plain", "chain", "stack", "get-value") else []
     text = sep.join(lines) + "\n"
     if g.pct(6) and not any("\n" in l or "\r" in l for l in lines):
         # the other line-break conventions (carriage return is white space and ends a comment)
